@@ -3,18 +3,20 @@ import math, struct, common, geo_oracle
 from common import Failure
 from props._base import *  # noqa
 
-LEAN_MODULES = ['A5.Props.C15']
+LEAN_MODULES = ['A5.Props.C15', 'A5.Props.C15Mono']
 LEVEL = 'other'
 EXPLANATION = ('PROVED (Lean, over the reals, for ANY six coefficients): the conversion is odd, fixes 0 and +-pi/2, and its correction term is sin(2 phi) times a polynomial. '
+               'PROVED (Lean, over the reals, for the implementation\'s own coefficients, regenerated as exact rationals each run): both series are STRICTLY INCREASING on all of R '
+               '(the correction is Lipschitz with constant 2*a4+4*l4 < 1 computed from the coefficient magnitudes), hence each maps [-pi/2, pi/2] bijectively onto itself. '
                'TIED: the executable Lean model on IEEE doubles (same operation order, same libm) is compared bit for bit with AuthalicProjection.forward/inverse on a dense grid plus log-spaced approaches to 0 and +-90 degrees; '
                'the coefficient tables are regenerated from the source each run. '
                'ASSUMED (named, exercised every run by a sweep against the closed-form WGS84 authalic latitude, pole-safe, validated against 50-digit arithmetic): H-accuracy |forward - closed form| <= 1e-10 rad, '
-               'H-inverse |inverse(forward(x)) - x| <= 1e-12 rad, H-monotone strictly increasing in floating point.')
+               'H-inverse |inverse(forward(x)) - x| <= 1e-12 rad, H-monotone-fp: rounding does not destroy strictness between the sampled doubles.')
 RULE = 'grid of latitudes (2e4 quick / 1e6 thorough) plus log-spaced approaches (1e-1..1e-300 from 0, 1e-1..1e-15 from +-pi/2); from_lonlat/to_lonlat on the same latitudes'
 ASSUMPTIONS = ['H-accuracy: |forward(phi) - closed-form authalic latitude| <= 1e-10 rad', 'H-inverse: |inverse(forward(phi)) - phi| <= 1e-12 rad',
-               'H-monotone: forward strictly increasing on [-pi/2, pi/2] in IEEE arithmetic', 'libm sin/cos of the host = those of the Lean runtime (checked bit for bit on every run)']
-LEVEL_TEXT = ('partial: oddness and fixed points are machine-checked theorems over the reals for arbitrary coefficients; the floating-point function is modelled bit-exactly and compared on every run; '
-              'the three tolerance clauses are named assumptions exercised by a sweep against an independent closed form — validated numerics over a continuum at 1e-12 is not practical in-kernel')
+               'H-monotone-fp: the real-number strict monotonicity (proved) survives IEEE rounding on the sampled latitudes', 'libm sin/cos of the host = those of the Lean runtime (checked bit for bit on every run)']
+LEVEL_TEXT = ('partial: oddness, fixed points (arbitrary coefficients) and strict monotonicity + bijectivity on [-pi/2, pi/2] (the implementation coefficients) are machine-checked theorems over the reals; the floating-point function is modelled bit-exactly and compared on every run; '
+              'the two tolerance clauses and the floating-point survival of monotonicity are named assumptions exercised by a sweep against an independent closed form — validated numerics over a continuum at 1e-12 is not practical in-kernel')
 LEVEL_NOTE = 'trusted: Lean kernel + standard axioms (Mathlib real analysis); bit-exact correspondence of the Float model; the closed-form oracle (checked against 50-digit arithmetic while building)'
 TECHNIQUE = 'Lean 4 proof of the real-number structure + bit-exact Float model correspondence + assumption sweep against the closed form'
 DESIGN_REF = 'DESIGN.md §3 C15'
